@@ -7,7 +7,7 @@ import NmVerif.Lemmas.Roll
 import NmVerif.Lemmas.Resize
 import NmVerif.Index.Expand
 import NmVerif.Lemmas.Diagonal
-import NmVerif.Index.SlidingWindow
+import NmVerif.Lemmas.SlidingWindow
 import NmVerif.Lemmas.Split
 import NmVerif.Index.Stack
 /-
@@ -814,8 +814,8 @@ example : (diagflatView [2, 2] (-1)).map (fun v => (v.dst, v.map [1, 0], v.map [
     some ([5, 5], some [0, 0], some [1, 1], none) := by decide
 
 /-! ### sliding_window (scalar window on one axis — NumPy `sliding_window_view(a, w, axis=k)`: extent `e - w + 1` on the
-    axis, a trailing window axis of extent `w`, `out[i…, o] = a[i with i[k] + o]`).  Window lists / axis lists / axis None
-    are under correspondence only (PARTIAL). -/
+    axis, a trailing window axis of extent `w`, `out[i…, o] = a[i with i[k] + o]`).  Window lists with axis lists / axis
+    None: `slidingWindowList_*`, `slidingWindowNone_*`, `slidingWindowScalarNone_rank1` below. -/
 
 theorem slidingWindow_shape (s : Shape) (w : Nat) (axis : Int) (k e : Nat) (hk : normalizeAxis1 axis s.length = some k)
     (he : s[k]? = some e) :
@@ -868,6 +868,119 @@ theorem slidingWindow_inBounds (s : Shape) (w : Nat) (axis : Int) (k e : Nat) (h
 
 example : (slidingWindowView [2, 4] [2] (some [-1]) true).map (fun v => (v.dst, v.map [1, 2, 1])) =
     some ([2, 3, 2], some [1, 3]) := by decide
+
+/-! ### sliding_window with a window LIST and an axis LIST (NumPy `sliding_window_view(a, window_shape, axis)`,
+    `len(window_shape) = len(axis)`, axes may be negative and may repeat): SPEC `swShape` / `swIndex` in
+    Lemmas/SlidingWindow.lean. -/
+
+
+set_option linter.unusedVariables false in
+/-- shape = NumPy's: every listed axis trimmed by `w - 1` (a repeated axis by the total), window extents appended.
+    `hw` / `hfit` delimit NumPy's domain (windows `≥ 1`, total trim within the extent), on which the subtractions in
+    `swShape` are exact and the `size_t` arithmetic of the C++ does not wrap (the equation itself needs none of them). -/
+theorem slidingWindowList_shape (s ws : List Nat) (axes : List Int) (ks : List Nat) (hk : AxesNorm s.length axes ks)
+    (hl : ws.length = axes.length) (hw : ∀ w ∈ ws, 1 ≤ w)
+    (hfit : ∀ p e, s[p]? = some e → winSum ks (ws.map (· - 1)) p ≤ e) :
+    ∃ v, slidingWindowView s ws (some axes) false = some v ∧ v.src = s ∧ v.dst = swShape s ks ws := by
+  simp only [slidingWindowView, shapeSlidingWindow, mapM_normalizeAxis1_of_axesNorm _ _ _ hk, Option.map_some]
+  exact ⟨_, rfl, rfl, by rw [shrinkAxes_eq s ks ws hk.lt]; rfl⟩
+
+/-- element `(i…, o…)` reads the source at `i[p] + Σ_{axis j = p} o[j]` (NumPy's strides: one window axis per listed
+    axis, a repeated axis accumulates) -/
+theorem slidingWindowList_elem (s ws : List Nat) (axes : List Int) (ks : List Nat) (hk : AxesNorm s.length axes ks)
+    (v : IxView) (hv : slidingWindowView s ws (some axes) false = some v) (i o : Idx) (hi : i.length = s.length) :
+    v.map (i ++ o) = some (swIndex i ks o) := by
+  simp only [slidingWindowView, shapeSlidingWindow, mapM_normalizeAxis1_of_axesNorm _ _ _ hk, Option.map_some,
+    Option.some.injEq] at hv
+  subst hv
+  have ht : (i ++ o).take s.length = i := by rw [← hi]; simp
+  have hdr : (i ++ o).drop s.length = o := by rw [← hi]; simp
+  simp only [indexSlidingWindow, ht, hdr]
+  rw [addWindowOffsets_eq i axes ks o (by rw [hi]; exact hk)]
+  rfl
+
+/-- no access leaves the source (any extents, any windows: a window larger than what is left gives an empty view) -/
+theorem slidingWindowList_inBounds (s ws : List Nat) (axes : List Int) (ks : List Nat) (hk : AxesNorm s.length axes ks)
+    (v : IxView) (hv : slidingWindowView s ws (some axes) false = some v) : v.InBounds := by
+  have hdst : v.src = s ∧ v.dst = swShape s ks ws := by
+    simp only [slidingWindowView, shapeSlidingWindow, mapM_normalizeAxis1_of_axesNorm _ _ _ hk, Option.map_some,
+      Option.some.injEq] at hv
+    subst hv
+    exact ⟨rfl, by show shrinkAxes s ks ws ++ ws = _; rw [shrinkAxes_eq s ks ws hk.lt]; rfl⟩
+  intro d hd r hr
+  rw [hdst.2, swShape, inShape_append_iff] at hd
+  rw [hdst.1]
+  simp only [List.length_mapIdx] at hd
+  obtain ⟨hd1, hd2⟩ := hd
+  have hdl := hd1.length_eq
+  simp only [List.length_mapIdx] at hdl
+  have hsplit : d = d.take s.length ++ d.drop s.length := (List.take_append_drop _ _).symm
+  rw [hsplit, slidingWindowList_elem s ws axes ks hk v hv _ _ hdl] at hr
+  simp only [Option.some.injEq] at hr
+  subst hr
+  exact swIndex_inShape s ks ws _ _ hd1 hd2
+
+example : AxesNorm 2 [-1, 0, 1] [1, 0, 1] ∧ (∀ w ∈ [2, 2, 2], 1 ≤ w) ∧ swShape [3, 4] [1, 0, 1] [2, 2, 2] = [2, 2, 2, 2, 2] ∧
+    swIndex [1, 1] [1, 0, 1] [1, 0, 1] = [1, 3] := by
+  refine ⟨.cons (by decide) (.cons (by decide) (.cons (by decide) .nil)), by decide, by decide, by decide⟩
+/-- repeated axis (negative and positive spelling of axis 1): the two window coordinates add up -/
+example : (slidingWindowView [3, 4] [2, 2, 2] (some [-1, 0, 1]) false).map (fun v => (v.dst, v.map [1, 1, 1, 0, 1])) =
+    some ([2, 2, 2, 2, 2], some [1, 3]) := by decide
+
+/-! axis None with a window list: one window per axis (NumPy: `axis = range(ndim)`, `len(window_shape) = ndim`) -/
+
+set_option linter.unusedVariables false in
+theorem slidingWindowNone_shape (s ws : List Nat) (hl : ws.length = s.length) (hw : ∀ w ∈ ws, 1 ≤ w)
+    (hfit : ∀ (p e w : Nat), s[p]? = some e → ws[p]? = some w → w ≤ e) :
+    ∃ v, slidingWindowView s ws none false = some v ∧ v.src = s ∧
+      v.dst = List.zipWith (fun e w => e - (w - 1)) s ws ++ ws := by
+  refine ⟨_, rfl, rfl, ?_⟩
+  simp [shrinkAll, hl]
+
+theorem slidingWindowNone_elem (s ws : List Nat) (v : IxView) (hv : slidingWindowView s ws none false = some v)
+    (i o : Idx) (hi : i.length = s.length) (ho : o.length = s.length) :
+    v.map (i ++ o) = some (List.zipWith (· + ·) i o) := by
+  simp only [slidingWindowView, shapeSlidingWindow, Bool.false_eq_true, if_false, Option.map_some,
+    Option.some.injEq] at hv
+  subst hv
+  have ht : (i ++ o).take s.length = i := by rw [← hi]; simp
+  have hdr : (i ++ o).drop s.length = o := by rw [← hi]; simp
+  simp [indexSlidingWindow, ht, hdr, ho]
+
+theorem slidingWindowNone_inBounds (s ws : List Nat) (hl : ws.length = s.length) (v : IxView)
+    (hv : slidingWindowView s ws none false = some v) : v.InBounds := by
+  have hdst : v.src = s ∧ v.dst = List.zipWith (fun e w => e - (w - 1)) s ws ++ ws := by
+    simp only [slidingWindowView, shapeSlidingWindow, Bool.false_eq_true, if_false, Option.map_some,
+      Option.some.injEq] at hv
+    subst hv
+    exact ⟨rfl, by simp [shrinkAll, hl]⟩
+  intro d hd r hr
+  rw [hdst.2, inShape_append_iff] at hd
+  rw [hdst.1]
+  have hzl : (List.zipWith (fun e w => e - (w - 1)) s ws).length = s.length := by simp [hl]
+  rw [hzl] at hd
+  obtain ⟨hd1, hd2⟩ := hd
+  have h1 := hd1.length_eq
+  have h2 := hd2.length_eq
+  rw [hzl] at h1
+  have hsplit : d = d.take s.length ++ d.drop s.length := (List.take_append_drop _ _).symm
+  rw [hsplit, slidingWindowNone_elem s ws v hv _ _ h1 (by omega)] at hr
+  simp only [Option.some.injEq] at hr
+  subst hr
+  exact zipWith_add_inShape s ws _ _ hl hd1 hd2
+
+example : (slidingWindowView [3, 4] [2, 3] none false).map (fun v => (v.dst, v.map [1, 1, 1, 2])) =
+    some ([2, 2, 2, 3], some [2, 3]) := by decide
+
+/-- scalar window with axis None: NumPy accepts it for rank 1 only, where it is the one-axis case -/
+theorem slidingWindowScalarNone_rank1 (n w : Nat) :
+    ∃ v, slidingWindowView [n] [w] none true = some v ∧ v.src = [n] ∧ v.dst = [n - (w - 1), w] ∧
+      ∀ i o, v.map [i, o] = some [i + o] := by
+  refine ⟨_, rfl, rfl, rfl, ?_⟩
+  intro i o
+  simp [indexSlidingWindow]
+
+example : (slidingWindowView [4] [2] none true).map (fun v => (v.dst, v.map [2, 1])) = some ([3, 2], some [3]) := by decide
 
 /-! ### split into `N` equal sections along axis `k` (NumPy `np.split(a, N, axis=k)`, `N ∣ extent`): `N` parts of
     extent `n / N`, part `i` reads `a[…, x + i·(n/N), …]`.  Cut-point lists: `splitIdx_*` below (cut points beyond the
